@@ -1,6 +1,8 @@
 """C20 — tracked temporary resources are deleted exactly when their last user is gone.
 
-Model: lean/JoblibModel/Tracker.lean; theorems: lean/JoblibProofs/C20.lean; driver: Driver/C20.lean.
+Models: lean/JoblibModel/Tracker.lean (the tracker's command loop) and lean/JoblibModel/TrackerClient.lean (the client
+side — TemporaryResourcesManager, the memmapping reducer, executors/pools, worker processes — composed with the loop and a
+disk); theorems: lean/JoblibProofs/C20.lean; driver: Driver/C20.lean. The client side is tied in harness/c20_client.py.
 
 Implementation side: the REAL `resource_tracker.main` of VERIF_REPO running in its own process, reached
   * mode "direct": `python -c "from joblib.externals.loky.backend.resource_tracker import main; main(fd, 0)"` with
@@ -50,6 +52,19 @@ REQUIRED_THEOREMS = [
     "C20.eof_deletes_rest_folders_last",
     "C20.parse_send_format",
     "C20.net_differs_when_unbalanced",
+    # the client side (JoblibModel.TrackerClient composed with the loop above)
+    "C20.client_tracker_composed",
+    "C20.client_requests_wellformed",
+    "C20.refcount_matches_users",
+    "C20.repaired_never_releases_twice",
+    "C20.refcount_matches_users_repaired",
+    "C20.never_deleted_while_held_partial",
+    "C20.never_deleted_while_held",
+    "C20.extra_reference_released_twice_counterexample",
+    "C20.never_deleted_while_held_fails_on_pinned",
+    "C20.eventually_deleted",
+    "C20.eventually_deleted_at_exit",
+    "C20.client_invariants",
 ]
 TRUSTED_EXTRA = [
     "modelled, not verified: the OS — a pipe delivers the clients' writes as one byte stream in write order, writes <= PIPE_BUF "
@@ -60,6 +75,13 @@ TRUSTED_EXTRA = [
     "bytes.strip, str.split/join, dict insertion order, the warnings module (default filter: same text shown once)",
     "verbose=1 / util.debug branches of main() are not modelled (off by default)",
     "Windows branches (msvcrt, PermissionError retry of unlink_file) are not modelled",
+    "client model, modelled not verified: synchrony — every request is processed by the tracker before the client looks at the "
+    "disk again (what the sleeps/retries of delete_folder are for; the probe replaces the sleeps by a real synchronisation with "
+    "the tracker); one name per (manager id, context id, array): uuid4 / id() uniqueness; the weak-key map of the reducer "
+    "(arrays stay alive in the probe); loky's executor reuse rules are transcribed (arguments compared, shutdown flag), loky's "
+    "worker management itself is replaced by stand-in worker processes that run the real un-pickling and finalizers",
+    "client model: the memmaps of MemmappingPool workers are not registered users (unlink_on_gc_collect=False): the model's "
+    "monitor counts them only for deletions done by the main process itself; the probe's oracle covers them for all deletions",
 ]
 
 PY = core.PY
@@ -1344,7 +1366,7 @@ CLIENT_RULE = (" || client side: one program = one real main process (python3-vt
                "distinct by the program")
 
 
-def _client(ctx, res, n, salt, big=False, e2e=True):
+def _client(ctx, res, n, salt, big=False):
     core.use_repo()
     progs = c20_client.corpus_programs() + c20_client.programs_for(ctx, n, salt, big=big)
     c20_client.explore(ctx, res, progs, salt)
